@@ -547,6 +547,10 @@ func (h *hnode) id(i uint64) int {
 // there on, exactly as x's store returns them (a checkpoint carries x's metadata).
 func syncTo(x, y *hnode) { syncToM(x, y, nil) }
 
+// failWrite, if set, decides whether the follower's underlying store fails the coming write once
+// (HarnessHistory, failures=1).
+var failWrite func() bool
+
 // syncToM: mutate, if not nil, may alter one of the entries on their way to y.
 func syncToM(x, y *hnode, mutate func(l *raft.Log) bool) {
 	s := x.first
@@ -583,6 +587,12 @@ func syncToM(x, y *hnode, mutate func(l *raft.Log) bool) {
 	}
 	if len(y.ids) == 0 {
 		y.first = k
+	}
+	if failWrite != nil && failWrite() {
+		// the follower's store fails this write once; raft retries the same entry objects
+		y.mem.FailStore = 1
+		vrt.Assert("C16.history.injected-failure-surfaces", y.ls.StoreLogs(batch) != nil)
+		vrt.Reach("history-write-failed-and-retried")
 	}
 	vrt.Assert("C16.history.follower-store-ok", y.ls.StoreLogs(batch) == nil)
 	for i := k; i <= x.last(); i++ {
@@ -633,6 +643,19 @@ func HarnessHistory() {
 		mutated = true
 		vrt.Reach("history-altered-in-flight")
 		return true
+	}
+	// failures=1: at most once, a follower's underlying store fails a replicated write, which is
+	// then retried with the same entry objects (nothing is altered: no report may blame anybody)
+	failed := false
+	failWrite = nil
+	if vrt.Param("failures", 0) == 1 {
+		failWrite = func() bool {
+			if failed || vrt.Choice("fail-this-write", 2) == 0 {
+				return false
+			}
+			failed = true
+			return true
+		}
 	}
 	cpWriter := map[uint64]int{} // checkpoint index -> the node that wrote it (as of the latest write at that index)
 	seen := [2]int{}
